@@ -332,6 +332,7 @@ def st(ctx):
     nfun = 0
     pol_ = mir.default_inline_policy(crate)
     acc_ = crate._cache.get("accessor_policy", set())
+    roots_ = {rb.id for rb, _ in C.self_symmetry_sites(crate)}       # the self-symmetry deriver stays a unit of its own
     for b in crate.fns():
         if not (b.file or "").startswith("src/"):
             continue
@@ -342,9 +343,9 @@ def st(ctx):
             continue
         # a private helper with a single call site is typed inside its caller (its parameters are then the caller's values:
         # `add_self_symmetry(i, &a, &b, proof)` makes sense only with what the caller knows about i, a and b)
-        if b.id in pol_ and b.id not in acc_:
+        if b.id in pol_ and b.id not in acc_ and b.id not in roots_:
             continue
-        errs, (sites, d) = spaces.check_function(crate, mir.accessor_view(crate, mir.inline_view(crate, b)), ins)
+        errs, (sites, d) = spaces.check_function(crate, mir.accessor_view(crate, mir.inline_view(crate, b, keep=tuple(sorted(roots_ - {b.id})))), ins)
         tot += sites
         dec += d
         if sites:
